@@ -219,6 +219,26 @@ def explore_registry(run, n_random):
         if len(set(nums)) != len(nums):
             run.violate("C25/same-number-twice", "names registered through Event() share numbers: %s" % nums, cj)
         run.case(cj, nontrivial=True)
+    # Event(signal=<name>) with names that are also attributes of the registry object
+    import text_corr
+    cj = {"what": "event-with-attribute-like-name"}
+    seen = {}
+    for nm in text_corr.ATTR_LIKE_NAMES:
+        try:
+            e = mevent.Event(signal=nm)
+        except Exception as ex:  # noqa
+            run.violate("C25/event-construction-error", "Event(signal=%r) raised %s: %s" % (nm, type(ex).__name__, ex), cj)
+            continue
+        if not isinstance(e.signal, int) or e.signal_name != nm or mevent.signals.get(nm) != e.signal:
+            run.violate("C25/event-number", "Event(signal=%r) carries name %r and number %r; the registry has %r"
+                        % (nm, e.signal_name, e.signal, mevent.signals.get(nm)), cj)
+        elif e.signal in seen or mevent.signals.name_for_signal(e.signal) != nm:
+            run.violate("C25/same-number-twice", "Event(signal=%r) got number %r, which belongs to %r"
+                        % (nm, e.signal, seen.get(e.signal, mevent.signals.name_for_signal(e.signal))), cj)
+        if isinstance(e.signal, int):
+            seen[e.signal] = nm
+    run.count("Event() with attribute-like names")
+    run.case(cj, nontrivial=True)
     # attribute access of a name that is a dict method
     reg = mevent.SignalSource()
     cj = {"what": "reserved-attribute-name"}
@@ -233,9 +253,22 @@ def explore_registry(run, n_random):
 # C27 / C29 thread-safe attributes
 # ---------------------------------------------------------------------------
 
-def make_tsa_class():
+def make_tsa_class(by_value=False):
     class Obj(metaclass=mtsa.MetaThreadSafeAttributes):
         _attributes = ["x"]
+    if by_value:
+        # instances that compare (and hash) equal are still different objects with their own attribute values
+        class Obj(metaclass=mtsa.MetaThreadSafeAttributes):  # noqa
+            _attributes = ["x"]
+
+            def __init__(self, key="k"):
+                self.key = key
+
+            def __eq__(self, other):
+                return isinstance(other, type(self)) and other.key == self.key
+
+            def __hash__(self):
+                return hash(self.key)
     return Obj
 
 
@@ -363,7 +396,9 @@ def explore_instances(run, n_random):
     """C29: sequences of instance creation, assignment and reads on a real class vs the value-store model"""
     rng = run.rng
     for _ in range(n_random):
-        Obj = make_tsa_class()
+        by_value = rng.random() < 0.4
+        Obj = make_tsa_class(by_value)
+        run.count("instances compare %s" % ("by value (all equal)" if by_value else "by identity"))
         insts, model = [], {}
         ops = []
         for _ in range(rng.randint(3, 12)):
